@@ -123,6 +123,63 @@ func transClient(repo string, f *Facts) {
 	} else {
 		f.bad("translate Client.packet: not found")
 	}
+	// ---- handshake: the revision both sides speak afterwards, and whether / what the addendum is
+	if fd := p.funcDecl("Client", "handshake"); fd != nil && fd.Body != nil {
+		var down, add *ast.IfStmt
+		ast.Inspect(fd.Body, func(n ast.Node) bool {
+			if is, ok := n.(*ast.IfStmt); ok && is.Init == nil {
+				switch nodeText(is) {
+				case "if c.protocolVersion > c.server.Revision":
+					down = is
+				case "if proto.FeatureAddendum.In(c.protocolVersion)":
+					add = is
+				}
+			}
+			return true
+		})
+		if down == nil {
+			f.bad("translate Client.handshake: the downgrade statement `if c.protocolVersion > c.server.Revision` not found")
+		} else {
+			g := &glFunc{name: "Client.handshake/downgrade", f: f, state: "rev", recv: "c", fallOff: "rev",
+				exprs: map[string]string{"c.protocolVersion": "rev", "c.server.Revision": "serverRev"},
+				stmts: map[string]string{"c.protocolVersion = c.server.Revision": "serverRev"}, noops: map[string]bool{}}
+			body := g.block([]ast.Stmt{down}, g.fallOff)
+			if !g.failed {
+				f.trans.WriteString("\n/-- `handshake`: the revision spoken after the server hello (`rev`: the client's own) -/\ndef negotiated (rev serverRev : Nat) : Nat :=\n" + indent(body, "  ") + "\n")
+			}
+		}
+		ea := p.funcDecl("Client", "encodeAddendum")
+		if add == nil || ea == nil || ea.Body == nil {
+			f.bad("translate Client.handshake: the addendum statement `if proto.FeatureAddendum.In(c.protocolVersion)` / encodeAddendum not found")
+		} else {
+			feat := func(name string) string {
+				return "Model.Msg.featIn ((Generated.features.lookup \"" + name + "\").getD 0) rev"
+			}
+			g1 := &glFunc{name: "Client.encodeAddendum", f: f, state: "out", recv: "c", fallOff: "out",
+				exprs: map[string]string{"proto.FeatureQuotaKey.In(c.protocolVersion)": feat("FeatureQuotaKey")},
+				stmts: map[string]string{"c.writer.ChainBuffer(func(b *proto.Buffer) { b.PutString(c.quotaKey) })": "Model.putString quotaKey out"},
+				noops: map[string]bool{}}
+			b1 := g1.block(ea.Body.List, g1.fallOff)
+			g2 := &glFunc{name: "Client.handshake/addendum", f: f, state: "out", recv: "c", fallOff: "out",
+				exprs: map[string]string{"proto.FeatureAddendum.In(c.protocolVersion)": feat("FeatureAddendum")},
+				stmts: map[string]string{"c.encodeAddendum()": "encodeAddendum rev quotaKey out"},
+				noops: map[string]bool{`c.lg.Debug("Writing addendum")`: true},
+				// the flush of the addendum: its failure ends the handshake, its success changes nothing about WHAT was encoded
+				noopIfInits: map[string]bool{"err := c.flush(wgCtx)": true}}
+			b2 := g2.block([]ast.Stmt{add}, g2.fallOff)
+			if !g1.failed && !g2.failed {
+				f.trans.WriteString("\n/-- `(*Client).encodeAddendum` appending to `out` -/\ndef encodeAddendum (rev : Nat) (quotaKey : Model.Bytes) (out : Model.Bytes) : Model.Bytes :=\n" + indent(b1, "  ") + "\n")
+				f.trans.WriteString("\n/-- `handshake`: what is written after the server hello at the negotiated revision `rev` -/\ndef addendumBytes (rev : Nat) (quotaKey : Model.Bytes) : Model.Bytes :=\n  let out : Model.Bytes := []\n" + indent(b2, "  ") + "\n")
+				var q []string
+				for _, d := range g2.dropped {
+					q = append(q, leanStr(d))
+				}
+				f.trans.WriteString("def addendum_dropped : List String := [" + strings.Join(q, ", ") + "]\n")
+			}
+		}
+	} else {
+		f.bad("translate Client.handshake: not found")
+	}
 	// ---- Do: the cancel-watch goroutine and the statements after g.Wait()
 	fd := p.funcDecl("Client", "Do")
 	if fd == nil || fd.Body == nil {
